@@ -1,4 +1,5 @@
 import SigpyVerif.Lemmas.C10
+import SigpyVerif.Model.C10Nd
 /-
   C10, N-d: arrays as functions of the multi-index (a list of naturals, one entry per axis), sums over a
   box, a 1-D linear map applied along one axis, and the lifting of 1-D isometry / adjointness / left
@@ -20,16 +21,7 @@ def InBox : List ℕ → List ℕ → Prop
   | n :: s, i :: idx => i < n ∧ InBox s idx
   | _, _ => False
 
-/-- the 1-D map `T` applied along axis `a` of an N-d array -/
-def alongAxis (a : ℕ) (T : (ℕ → R) → ℕ → R) (X : List ℕ → R) (idx : List ℕ) : R :=
-  T (fun i => X (idx.set a i)) (idx.getD a 0)
-
-/-- a family of 1-D maps, one per axis length `N`: `fwd N` (length `N` → length `len N`) and the map `bwd N`
-    back (length `len N` → length `N`) -/
-structure AxisMap (R : Type*) where
-  fwd : ℕ → (ℕ → R) → ℕ → R
-  bwd : ℕ → (ℕ → R) → ℕ → R
-  len : ℕ → ℕ
+/- `alongAxis`, `AxisMap`, `applyAxes`, `unapplyAxes`, `shapeAxes` are defined in Model/C10Nd.lean (core, executed) -/
 
 /-- `fwd` preserves the sum of squares -/
 def AxisMap.IsIso (F : AxisMap R) : Prop :=
@@ -41,23 +33,6 @@ def AxisMap.IsAdj (F : AxisMap R) : Prop :=
 def AxisMap.IsInv (F : AxisMap R) : Prop :=
   (∀ (N : ℕ) (x : ℕ → R) (n : ℕ), n < N → F.bwd N (F.fwd N x) n = x n) ∧
   (∀ (N : ℕ) (c c' : ℕ → R), (∀ k, k < F.len N → c k = c' k) → ∀ n, n < N → F.bwd N c n = F.bwd N c' n)
-
-/-- steps `(axis, family)` applied one after the other, threading the shape -/
-def applyAxes : List (ℕ × AxisMap R) → List ℕ → (List ℕ → R) → (List ℕ → R)
-  | [], _, X => X
-  | (a, F) :: as, shape, X =>
-    applyAxes as (shape.set a (F.len (shape.getD a 0))) (alongAxis a (F.fwd (shape.getD a 0)) X)
-
-/-- the `bwd` maps applied in the reverse order (last step first) -/
-def unapplyAxes : List (ℕ × AxisMap R) → List ℕ → (List ℕ → R) → (List ℕ → R)
-  | [], _, C => C
-  | (a, F) :: as, shape, C =>
-    alongAxis a (F.bwd (shape.getD a 0)) (unapplyAxes as (shape.set a (F.len (shape.getD a 0))) C)
-
-/-- the shape after the steps -/
-def shapeAxes : List (ℕ × AxisMap R) → List ℕ → List ℕ
-  | [], shape => shape
-  | (a, F) :: as, shape => shapeAxes as (shape.set a (F.len (shape.getD a 0)))
 
 theorem alongAxis_zero (T : (ℕ → R) → ℕ → R) (X : List ℕ → R) (i : ℕ) (idx : List ℕ) :
     alongAxis 0 T X (i :: idx) = T (fun j => X (j :: idx)) i := rfl
